@@ -86,15 +86,25 @@ theorem run_split {s0 s : St} {es : List (Tid × Ev)} (h : run s0 es = some s) (
   | none => simp [h1] at h
   | some sn => simp only [h1, Option.bind_some] at h; exact ⟨sn, h1, h⟩
 
-/-- **destruction of a version happens-after every read of it through a snapshot**, given what the (untraced, trusted)
-`shared_ptr` control block guarantees: the release of a reference — the destruction of a snapshot handle, `call drop v` —
-happens-before the destruction of the managed object by the last owner (`CB`). -/
+/-- the edges the (untraced, trusted) `shared_ptr` control block provides: the release of a reference to version `v` — the
+destruction of a snapshot handle, `call drop v`, an acquire-release decrement of the use count inside libstdc++ — happens-before
+the destruction of `v` by the last owner -/
+def CBedge (es : List (Tid × Ev)) (k j : Nat) : Prop :=
+  k < j ∧ ∃ (u d : Tid) (v : Ver), es[k]? = some (u, Ev.call (.drop v)) ∧ es[j]? = some (d, Ev.pdt v)
+
+/-- happens-before extended by the control-block edges -/
+inductive HBx (tr : HB.Trace) (R : Nat → Nat → Prop) : Nat → Nat → Prop
+  | base {i j : Nat} : HB.HB tr i j → HBx tr R i j
+  | edge {i j : Nat} : R i j → HBx tr R i j
+  | trans {i j k : Nat} : HBx tr R i j → HBx tr R j k → HBx tr R i k
+
+/-- **destruction of a version happens-after every read of it through a snapshot**, in happens-before extended by the
+control-block edges: the reader's read is program-order-before its own `call drop v`, which the control block orders
+before the destruction (the model accepts `pdt v` only when no snapshot of `v` is left). -/
 theorem cow_destroy_after_snapshot {o : LR.Ords} {pay b : Bool} {es : List (Tid × Ev)} {s : St} (h : run (init b) es = some s)
-    (CB : ∀ (k j : Nat) (u d : Tid) (v : Ver), k < j → es[k]? = some (u, Ev.call (.drop v)) → es[j]? = some (d, Ev.pdt v) →
-      HB.HB (hbTraceC o pay es) k j)
     {i j : Nat} {u d : Tid} {v : Ver} {c : Nat} (hij : i < j) (hi : es[i]? = some (u, .prd v c))
     (hsnap : ∀ si, run (init b) (es.take i) = some si → (u, v) ∈ si.snaps) (hj : es[j]? = some (d, .pdt v)) :
-    HB.HB (hbTraceC o pay es) i j := by
+    ∃ k, i < k ∧ k < j ∧ es[k]? = some (u, Ev.call (.drop v)) ∧ HBx (hbTraceC o pay es) (CBedge es) i j := by
   have hjl := HB.lq_lt hj
   -- the states before `i` and before `j`
   obtain ⟨sj, sj', hrj, hsj⟩ := HB.runFrom_at (step := step) h hj
@@ -115,6 +125,6 @@ theorem cow_destroy_after_snapshot {o : LR.Ords} {pay b : Bool} {es : List (Tid 
     simp at hk'
     rw [hi] at hk'; cases hk'
   have hb1 : HB.HB (hbTraceC o pay es) i (i + k) := .po (by omega) (hbTraceC_get hi) (hbTraceC_get hk')
-  exact .trans hb1 (CB (i + k) j u d v (by omega) hk' hj)
+  exact ⟨i + k, by omega, by omega, hk', .trans (.base hb1) (.edge ⟨by omega, u, d, v, hk', hj⟩)⟩
 
 end ConcVerif.Cow
